@@ -32,6 +32,7 @@ RULE = ("Generated histories: live objects are built once - 2-4 assets (contract
 RULE += (" A fix dictionary shared by all grids (date + solution vector longer than any problem), a rolled grid (same length, moved by 1-3 steps), capacities as the caller's float array, and compound operations set-up/optimise/extract whose tables are compared with those fresh objects give for the same solution vector.")
 ASSUMPTIONS = ["the fresh-object call defines the expected outcome, including expected exceptions for invalid combinations "
                "(e.g. zone-aware stamps on a naive grid)",
+               "a rolling horizon updates the declared initial state of a plant / CHP (time already running, last dispatch, minimum runtime) by attribute assignment on the live object; the model follows the new parameters",
                "operations are generated as a list and interpreted in order (equivalent to a rule-based state machine with "
                "total rules); the shrunk list is the replay"]
 SHRINK_BUDGET = {"quick": 120, "thorough": 500}
@@ -119,7 +120,7 @@ def _strategy(draw):
     for _ in range(draw(st.integers(3, 12))):
         op = draw(st.sampled_from(["setup_asset", "setup_asset", "setup_portfolio", "setup_portfolio", "setup_split",
                                    "setup_fix", "optimize", "extract", "reload", "cost_samples", "shortcut", "json", "json",
-                                   "setup_inner", "run_split", "run_mono", "setup_preset", "setup_preset"]))
+                                   "setup_inner", "run_split", "run_mono", "setup_preset", "setup_preset", "mutate"]))
         steps.append({"op": op, "k": draw(st.integers(0, n - 1)), "g": draw(st.integers(0, ngr - 1)),
                       "frame": draw(st.booleans()), "interval": draw(st.sampled_from(["2h", "3h", "d"]))})
     return {"grid": g0, "grids": grids, "assets": assets, "prices_per_grid": prices, "steps": steps,
@@ -252,7 +253,8 @@ def pristine_compare(out, spec, st_, live):
 
 def check(spec):
     out = Outcome()
-    live_assets = build_assets(spec)
+    cur = spec           # the parameters as they stand (a copy is made when a rolling horizon updates the initial state of a unit)
+    live_assets = build_assets(cur)
     live_pf = Portfolio(live_assets)
     live_grids = [build.build_grid(g) for g in spec["grids"]]
     live_prices = {}
@@ -301,20 +303,37 @@ def check(spec):
         if op == "setup_asset":
             p = prices_for(gi, False)
             live = eao_call(live_assets[k].setup_optim_problem, p, live_grids[gi])
-            fa = build_assets(spec)[k]
+            fa = build_assets(cur)[k]
             fresh = eao_call(fa.setup_optim_problem, price_container(spec, gi, False), build.build_grid(spec["grids"][gi]))
             compare(out, live, fresh, "%s (asset %s, grid %d)" % (what, spec["assets"][k]["name"], gi))
             touch([k], gi)
             if k not in reloaded:
-                last_setup = (dict(st_, k=k, use_frame=False), live)
+                last_setup = (dict(st_, k=k, use_frame=False), live, cur)
             if is_err(fresh):
                 precondition_errors += 1
+        elif op == "mutate":
+            # rolling horizon: the declared initial state of a unit is updated by assignment between two runs (the
+            # parameters of the model follow); other asset types: nothing happens
+            a_ = cur["assets"][k]
+            if a_["type"] in ("plant", "chp") and k not in reloaded and not a_.get("min_downtime"):
+                cur = copy.deepcopy(cur)
+                a_ = cur["assets"][k]
+                dt0 = float(tl.dt(spec["grids"][gi])[0])
+                running = not a_.get("time_already_running")
+                mc = a_["min_cap"] if isinstance(a_.get("min_cap"), (int, float)) else 0.0
+                new = {"time_already_running": (1.5 + (i % 2)) * dt0 if running else 0, "time_already_off": 0,
+                       "last_dispatch": mc if running else 0.0,
+                       "min_runtime": (2.5 if not a_.get("min_runtime") else 0) * dt0}
+                for key, v_ in new.items():
+                    a_[key] = v_
+                    setattr(live_assets[k], key, v_)
+                out.label("initial_state_updated")
         elif op == "setup_preset":
             # documented default of `timegrid`: the grid is set beforehand on every asset (as a portfolio does), then
             # asset k is set up without passing the grid
             p = prices_for(gi, False)
             errs = [eao_call(a_.set_timegrid, live_grids[gi]) for a_ in live_assets]
-            fa = build_assets(spec)[k]
+            fa = build_assets(cur)[k]
             fresh = eao_call(fa.setup_optim_problem, price_container(spec, gi, False), build.build_grid(spec["grids"][gi]))
             if any(is_err(e_) for e_ in errs):
                 if not is_err(fresh):
@@ -328,7 +347,7 @@ def check(spec):
         elif op in ("setup_portfolio", "setup_split", "setup_fix", "cost_samples", "shortcut"):
             use_frame = frame and op in ("setup_split", "shortcut", "setup_portfolio")
             p = prices_for(gi, use_frame)
-            fpf = Portfolio(build_assets(spec))
+            fpf = Portfolio(build_assets(cur))
             fp = price_container(spec, gi, use_frame)
             fg = build.build_grid(spec["grids"][gi])
             if op == "setup_portfolio":
@@ -353,7 +372,7 @@ def check(spec):
                     out.label("fixdict:" + ("shared" if frame else "per_grid"))
                 d, half, nvar = fixdict[fkey]
                 live = eao_call(live_pf.setup_optim_problem, p, live_grids[gi], fix_time_window=d)
-                fresh = eao_call(Portfolio(build_assets(spec)).setup_optim_problem, fp, fg,
+                fresh = eao_call(Portfolio(build_assets(cur)).setup_optim_problem, fp, fg,
                                  fix_time_window={"I": half, "x": np.zeros(nvar)})
             elif op == "cost_samples":
                 live = eao_call(lambda: np.hstack(live_pf.create_cost_samples([p], live_grids[gi])))
@@ -377,7 +396,7 @@ def check(spec):
             if op in ("setup_portfolio", "setup_split") and not is_err(live):
                 last = (live, p, gi, None, st_["interval"] if op == "setup_split" else None)
             if op in ("setup_portfolio", "setup_split") and not reloaded:
-                last_setup = (dict(st_, k=k, use_frame=use_frame), live)
+                last_setup = (dict(st_, k=k, use_frame=use_frame), live, cur)
         elif op == "optimize" and last is not None:
             r = eao_call(last[0].optimize)
             if not is_err(r) and not isinstance(r, str):
@@ -388,7 +407,7 @@ def check(spec):
             # the tables for the same solution vector, from the re-used objects and from fresh ones set up the same way
             lo = eao_call(extract_output, live_pf, last[0], last[3], last[1])
             gi_, split_ = last[2], last[4]
-            fpf = Portfolio(build_assets(spec))
+            fpf = Portfolio(build_assets(cur))
             fg = build.build_grid(spec["grids"][gi_])
             fp = price_container(spec, gi_, isinstance(last[1], pd.DataFrame))
             if split_:
@@ -415,14 +434,14 @@ def check(spec):
                 j = ks[k % len(ks)]
                 p = prices_for(gi, False)
                 live = eao_call(live_assets[j].portfolio.setup_optim_problem, p, live_grids[gi])
-                fresh = eao_call(build_assets(spec)[j].portfolio.setup_optim_problem, price_container(spec, gi, False),
+                fresh = eao_call(build_assets(cur)[j].portfolio.setup_optim_problem, price_container(spec, gi, False),
                                  build.build_grid(spec["grids"][gi]))
                 compare(out, live, fresh, "%s (inner portfolio of %s, grid %d)" % (what, spec["assets"][j]["name"], gi))
                 touch([j], gi)
         elif op == "json":
             # the parameters of an asset, as saved, are those of a fresh asset whatever was set up before
             sl = eao_call(serialization.to_json, live_assets[k])
-            sf = eao_call(serialization.to_json, build_assets(spec)[k])
+            sf = eao_call(serialization.to_json, build_assets(cur)[k])
             if not is_err(sl) and not is_err(sf):
                 # a wrapped portfolio legitimately remembers the last grid it was set up with
                 sl, sf = strip_grids(sl), strip_grids(sf)
@@ -435,14 +454,14 @@ def check(spec):
         elif op == "reload":
             s = eao_call(serialization.to_json, live_assets[k])
             if is_err(s):
-                fs = eao_call(serialization.to_json, build_assets(spec)[k])
+                fs = eao_call(serialization.to_json, build_assets(cur)[k])
                 if not is_err(fs):
                     out.fail("%s: to_json of asset %s raises %s after earlier set-ups, works on a fresh asset"
                              % (what, spec["assets"][k]["name"], s.short()))
                 continue
             o2 = eao_call(serialization.load_from_json, s)
             if is_err(o2):
-                fs = eao_call(serialization.to_json, build_assets(spec)[k])
+                fs = eao_call(serialization.to_json, build_assets(cur)[k])
                 fo = eao_call(serialization.load_from_json, fs) if not is_err(fs) else fs
                 if not is_err(fo):
                     out.fail("%s: asset %s saved after earlier set-ups cannot be loaded (%s)" % (what, spec["assets"][k]["name"], o2.short()))
@@ -459,7 +478,7 @@ def check(spec):
         if out.violations:
             return out
     if spec.get("pristine") and last_setup is not None and not out.violations:
-        pristine_compare(out, spec, last_setup[0], last_setup[1])
+        pristine_compare(out, dict(spec, assets=last_setup[2]["assets"]), last_setup[0], last_setup[1])
     out.label("precondition_errors" if precondition_errors else None, "history:interesting" if interesting else "history:plain")
     out.nontrivial = interesting and precondition_errors == 0
     return out
